@@ -70,7 +70,8 @@ def isOk {α : Type} : R α → Bool
 
 /-! ### `strings` on bytes -/
 
-def bytes (s : String) : Bytes := s.toUTF8.toList
+/-- the bytes of an ASCII string literal (kernel-reducible, unlike `String.toUTF8`) -/
+def bytes (s : String) : Bytes := s.toList.map fun c => UInt8.ofNat c.toNat
 
 /-- `strings.Index(s, sub)`; `none` = -1 -/
 def indexOfAux (sub : Bytes) : Bytes → Nat → Option Nat
